@@ -314,6 +314,47 @@ def const_eval(e, depth=0):
 # ---------------------------------------------------------------------------
 # A5 — switch tables
 
+def local_callees_reaching(prog, body, blocks, targets_pred):
+    """Names (via name_of) of target functions reachable through calls made in `blocks` of `body`
+    (directly or through crate helpers / closures, call graph)."""
+    out = set()
+    byid = getattr(prog, "_byid", None)
+    if byid is None:
+        byid = {}
+        for n in prog.nodes:
+            byid.setdefault(n["id"], n["i"])
+            byid.setdefault(n["path"], n["i"])
+        prog._byid = byid
+    for blk, t, c in body.calls():
+        if blk not in blocks or c is None:
+            continue
+        starts = []
+        if c.local:
+            i = byid.get(c.id, byid.get(c.path))
+            if i is not None:
+                starts.append(i)
+        # closures passed as arguments
+        for a in t["args"]:
+            if a.get("k") in ("copy", "move"):
+                ty = body.local_ty(a["place"]["l"]) if not a["place"].get("p") else ""
+                if ty.startswith("{closure@"):
+                    pass
+        seen = set()
+        st = list(starts)
+        while st:
+            x = st.pop()
+            if x in seen:
+                continue
+            seen.add(x)
+            nm = targets_pred(prog.nodes[x])
+            if nm:
+                out.add(nm)
+                continue
+            if prog.nodes[x]["local"]:
+                st.extend(prog.nodes[x]["callees"])
+    return out
+
+
 def arm_result(an, body, start, dest_local=0, limit=12):
     """Follow the straight-line chain from block `start`; describe what is assigned to `dest_local`.
     -> ("variant", adt, name, [op exprs]) | ("const", v) | ("call", Callee, [arg exprs], block) | ("expr", e) | None"""
@@ -396,6 +437,29 @@ def eval_assuming(e, assume):
 
 
 def reach_assuming(an, body, assume, start=0):
+    """Blocks that can execute when the expressions in `assume` ({canon(expr): int}) have the given values:
+    conditional constant propagation (path-sensitive) seeded with every local whose sliced value is one of
+    the assumed expressions."""
+    amap = {}
+    sl = an.slicer(body)
+    for l in range(1, len(body.locals)):
+        try:
+            c = canon(peel(an.local(body, l), widen=True))
+        except RecursionError:
+            continue
+        if c in assume:
+            amap[l] = assume[c]
+    memo = {}
+
+    def sw(b):
+        if b not in memo:
+            memo[b] = eval_assuming(an.op(body, body.term(b)["op"]), assume)
+        return memo[b]
+
+    return body.reachable_cp(start, assume=amap, switch_eval=sw)
+
+
+def _reach_assuming_flow_insensitive(an, body, assume, start=0):
     seen = set()
     st = [start]
     while st:
